@@ -36,6 +36,7 @@ def run(ctx: Ctx):
     check_fresh_output(ctx, ic)
     check_accumulate(ctx, ic)
     c03.check_mark_operands(ctx)
+    ctx.section(check_output_never_scratch, ctx)
 
 
 def check_fresh_output(ctx: Ctx, ic):
@@ -90,3 +91,21 @@ def check_accumulate(ctx: Ctx, ic):
         raise AnchorError(fi.short, "no cx emitted by compile_xor")
     for c in cxs:
         ctx.check(norm(c.args[1]) in d_names, "TS-DEST", fi, f"cx({norm(c.args[0])}, {norm(c.args[1])}) targets the accumulator", "", "a term is xored into something other than the accumulator", c)
+
+
+def check_output_never_scratch(ctx: Ctx):
+    """MP-fresh-output (allocation): |x>|y> -> |x>|y ^ f(x)> for y = 1 needs an output qubit that no gate uses as
+    a control and that never served as scratch.  The compiler takes the destination of every definition, return bits
+    included, from get_free_ancilla(), which hands out released scratch qubits first."""
+    comp = ctx.repo.func(f"{IC}.compile")
+    gfa = ctx.repo.func("qcircuit.qcircuitenhanced.QCircuitEnhanced.get_free_ancilla")
+    recycles = any(isinstance(c.func, ast.Attribute) and c.func.attr == "pop" and "free_ancilla_lst" in norm(c.func.value) for c in q.calls(gfa.node))
+    loops = [l for l in q.for_loops(comp.node) if norm(l.iter) == comp.params[4] or norm(l.iter) == "exprs"]
+    if len(loops) != 1:
+        raise AnchorError(comp.short, "definition loop not found")
+    ce = [c for c in q.calls(loops[0]) if dotted(c.func) == "self.compile_expr"]
+    if len(ce) != 1:
+        raise AnchorError(comp.short, "expected one compile_expr call per definition")
+    dest = q.arg(ce[0], 2, "dest")
+    fresh_for_ret = dest is not None and any(dotted(c.func) in ("qc.add_qubit",) for c in ast.walk(loops[0]) if isinstance(c, ast.Call))
+    ctx.check((not recycles) or fresh_for_ret, "MP-fresh-output", comp, "the qubit of a return bit never served as scratch", "", "return bits get their qubit like every other definition, from get_free_ancilla(), which recycles released scratch qubits: an output qubit may have been used as scratch and as a control earlier in the circuit, so for an output qubit initially 1 those earlier gates misfire", ce[0])
